@@ -1,29 +1,29 @@
 #!/bin/bash
-# a sample of the mechanical mutants (tools/mutants.py), cheapest checks first; results in /verif/mutation/*.jsonl
+# a sample of the mechanical mutants of the generated-code templates (tools/mutants.py --ponly),
+# cheapest checks first; results in /verif/mutation/*.jsonl
 cd "$(dirname "$0")/.."
-run() { nice -n 5 python3 tools/mutants.py run "$1" "$2" --every "$3" --offset "${4:-0}" --nodrop; }
-run plugin/min/min.go C13 3
-run plugin/max/max.go C13 3 1
-run plugin/sort/sort.go C13 2
-run plugin/keys/keys.go C13 2
-run plugin/traverse/traverse.go C16 4
-run plugin/toerror/toerror.go C16 4
-run plugin/contains/contains.go C14 5
-run plugin/unique/unique.go C14 4
-run plugin/set/set.go C14 3
-run plugin/union/union.go C14 5
-run plugin/intersect/intersect.go C14 5
-run plugin/filter/filter.go C14 5
-run plugin/takewhile/takewhile.go C14 5
-run plugin/all/all.go C14 6
-run plugin/any/any.go C14 6 1
-run plugin/do/do.go C20 5
-run plugin/compose/compose.go C16 10
-run plugin/mem/mem.go C18 14
-run plugin/equal/equal.go C02 24
-run plugin/deepcopy/deepcopy.go C05 17
-run plugin/compare/compare.go C03 28
-run plugin/fmap/fmap.go C17 14
-run plugin/join/join.go C17 20
-run plugin/hash/hash.go C04 20
-run plugin/gostring/gostring.go C06 24
+run() { nice -n 10 python3 tools/mutants.py run "$1" "$2" --every "$3" --offset "${4:-0}" --nodrop --ponly; }
+run plugin/min/min.go C13 1
+run plugin/max/max.go C13 1
+run plugin/sort/sort.go C13 1
+run plugin/keys/keys.go C13 1
+run plugin/traverse/traverse.go C16 1
+run plugin/compose/compose.go C16 1
+run plugin/contains/contains.go C14 1
+run plugin/unique/unique.go C14 1
+run plugin/set/set.go C14 1
+run plugin/union/union.go C14 1
+run plugin/intersect/intersect.go C14 1
+run plugin/filter/filter.go C14 1
+run plugin/takewhile/takewhile.go C14 1
+run plugin/all/all.go C14 1
+run plugin/any/any.go C14 1
+run plugin/do/do.go C20 1
+run plugin/fmap/fmap.go C17 1
+run plugin/join/join.go C17 1
+run plugin/mem/mem.go C18 3
+run plugin/equal/equal.go C02 8
+run plugin/deepcopy/deepcopy.go C05 4
+run plugin/compare/compare.go C03 12
+run plugin/hash/hash.go C04 3
+run plugin/gostring/gostring.go C06 10
